@@ -111,8 +111,11 @@ Fixpoint first_error (s : list item) : N :=
   | TErr :: _ => 1 | ErrMax :: _ => 2 | ErrHash :: _ => 3
   end.
 
+(* the output directory of save operations: a single component that cannot occur in a name *)
+Definition run_outdir : list bytes := [[0]].
+(* listings are reported relative to the output directory *)
 Definition fs_tree (f : fsys) : tree :=
-  T (map (fun pv => T [T (map of_bytes (fst pv)); of_bytes (snd pv)]) (fs_files f)).
+  T (map (fun pv => T [T (map of_bytes (tl (fst pv))); of_bytes (snd pv)]) (fs_files f)).
 
 (* ops: [0, tname, now] read; [1, tname, digest_prefix, now] save into the output directory;
         [2, path, content] a file that already exists in the output directory *)
@@ -132,11 +135,11 @@ Fixpoint run_ops (H : bytes -> N) (fx : fixes) (cfg : config) (rp : repo) (tsrv 
          end) :: run_ops H fx cfg rp tsrv rest f w'
       else if k =? 1 then
         let '(r, f', w') := save_target H fx cfg (Z_of_tree (t_nth o 3)) rp tsrv (tname_of_tree (t_nth o 1))
-                                        (t_bool (t_nth o 2)) [] f w in
+                                        (t_bool (t_nth o 2)) run_outdir f w in
         T [L 3; match r with Ok _ => T [L 0] | Err c a => T [L c; L a] end; fs_tree f']
           :: run_ops H fx cfg rp tsrv rest f' w'
       else
-        let f' := {| fs_files := fs_put (map t_bytes (t_list (t_nth o 1))) (t_bytes (t_nth o 2)) (fs_files f);
+        let f' := {| fs_files := fs_put (run_outdir ++ map t_bytes (t_list (t_nth o 1))) (t_bytes (t_nth o 2)) (fs_files f);
                      fs_tmp := fs_tmp f |} in
         T [L 4] :: run_ops H fx cfg rp tsrv rest f' w
   end.
